@@ -51,6 +51,8 @@ type mState struct {
 	Now   float64
 	// Expired lists what the last @advance removed ("key id" / "c:name").
 	Expired []string
+	// RO: READONLY yes is in effect (data-modifying commands are refused)
+	RO bool
 }
 
 func newMState() *mState {
@@ -71,6 +73,7 @@ func (s *mState) clone() *mState {
 		c.Hooks[k] = &hh
 	}
 	c.Timed, c.Now = s.Timed, s.Now
+	c.RO = s.RO
 	return c
 }
 
@@ -109,7 +112,7 @@ func (s *mState) canon() string {
 		}
 		sb.WriteString("@" + k + "=" + h.Spec + "|" + d + ";")
 	}
-	return sb.String()
+	return sb.String() // (RO is a server setting, not part of the visible dataset)
 }
 
 // canonTimed adds remaining lifetimes and the sweeper phase (C14 dedup key).
@@ -278,6 +281,27 @@ func mObjReply(o *mObj, withfields bool) string {
 // RESP reply in the notation of rv.String(), or a "~" matcher.
 func mApply(s *mState, a []string) string {
 	cmd := strings.ToLower(a[0])
+	if cmd == "readonly" {
+		if len(a) != 2 {
+			return eNArg
+		}
+		switch strings.ToLower(a[1]) {
+		case "yes":
+			s.RO = true
+		case "no":
+			s.RO = false
+		default:
+			return "~err:invalid argument"
+		}
+		return "+OK"
+	}
+	if s.RO {
+		switch cmd {
+		case "set", "fset", "del", "pdel", "drop", "rename", "renamenx", "flushdb", "expire", "persist", "jset", "jdel",
+			"sethook", "setchan", "delhook", "delchan", "pdelhook", "pdelchan":
+			return "~err:read only"
+		}
+	}
 	switch cmd {
 	case "set":
 		if len(a) < 3 {
